@@ -57,3 +57,14 @@ Definition located (cps : list cp) (off : Z) (pre cur post : list cp) : Prop :=
   | [c1; c2] => snd c1 = 13 /\ snd c2 = 10 /\ len (bytes pre) <= off < len (bytes pre) + 2
   | _ => False
   end.
+
+(* the longest prefix without any of the five breaks: the rest of the line as the property text defines it *)
+Fixpoint line_rest5 (l : list cp) : list cp :=
+  match l with
+  | [] => []
+  | c :: t => if brkc c then [] else c :: line_rest5 t
+  end.
+
+(* the code points of the line the offset is in, by the five break kinds *)
+Definition whole_line (pre cur post : list cp) : list Z :=
+  runes (after_last brkc pre ++ line_rest5 (cur ++ post)).
